@@ -453,9 +453,14 @@ func (g *G) Scalar(typ string, depth int, label string) Val {
 	case "str":
 		v.S = g.Bytes(label + ".s")
 	case "stringer":
-		if rapid.IntRange(0, 5).Draw(t, label+".nil") == 0 {
+		switch rapid.IntRange(0, 7).Draw(t, label+".nil") {
+		case 0:
 			v.Nil = true
-		} else {
+		case 1:
+			v.EK = "nilsafe"
+		case 2:
+			v.EK, v.S = "ptr", g.Bytes(label+".s")
+		default:
 			v.S = g.Bytes(label + ".s")
 		}
 	case "bytes", "hex":
@@ -805,11 +810,18 @@ func (g *G) Steps(label string, maxSteps int) []Step {
 		//             the update of a logger that is switched off must still be there when a child switches it on
 		// "disabledctx": the same with a round trip through a context that already carries a logger
 		//             (WithContext stores a Disabled logger there) in place of the update
-		patKind = rapid.SampledFrom([]string{"copy", "copy", "disabled", "disabledctx"}).Draw(t, label+".updkind")
+		// "ctxhooks": two hooks; a child that gets a third through a Context method (Timestamp); two
+		//             children of that child that get theirs the same way (Caller / Timestamp): hook
+		//             slices grown by append have spare capacity, and the siblings must not share it
+		patKind = rapid.SampledFrom([]string{"copy", "copy", "disabled", "disabledctx", "ctxhooks"}).Draw(t, label+".updkind")
+		if patKind == "ctxhooks" && (g.cfg.NoHooks || g.cfg.NoCaller) {
+			patKind = "copy"
+		}
 		patAt = rapid.IntRange(0, n-4).Draw(t, label+".updat")
 	}
 	patReset := false
 	forceLevel, forceN := 99, -1
+	sibCtxHook, nSibCtx, ctxHookNh := false, 0, 0
 	for i := 0; i < n; i++ {
 		parent := i - 1
 		var from *int
@@ -829,6 +841,15 @@ func (g *G) Steps(label string, maxSteps int) []Step {
 			f := patAt
 			from, parent = &f, f
 			patReset = rapid.Bool().Draw(t, label+".updreset")
+		case patKind == "ctxhooks" && i == patAt:
+			forced, ctxHookNh = "hook", 2
+		case patKind == "ctxhooks" && i >= patAt+1 && i <= patAt+3:
+			forced, sibCtxHook = "with", true
+			f := patAt + 1 // the two siblings hang off the first Context-method child
+			if i == patAt+1 {
+				f = patAt
+			}
+			from, parent = &f, f
 		case (patKind == "disabled" || patKind == "disabledctx") && i == patAt:
 			forced, forceLevel = "level", 7
 		case (patKind == "disabled" || patKind == "disabledctx") && i == patAt+1:
@@ -861,6 +882,10 @@ func (g *G) Steps(label string, maxSteps int) []Step {
 		case sibLeft > 0 && burstNode >= 0:
 			sibLeft--
 			forced = burstKind
+			if burstKind == "hook" && !g.cfg.NoSettings && rapid.Bool().Draw(t, label+".sibctxhook") {
+				// a sibling that gets its hook through a Context method (Timestamp, Caller) rather than Hook()
+				forced, sibCtxHook = "with", true
+			}
 			f := burstNode
 			from, parent = &f, f
 		}
@@ -889,6 +914,15 @@ func (g *G) Steps(label string, maxSteps int) []Step {
 		switch k {
 		case "with", "update":
 			st.Ops = g.Ops("context", g.cfg.MaxDepth-1, label+".cops")
+			if sibCtxHook {
+				sibCtxHook = false
+				kind := []string{"timestamp", "caller"}[nSibCtx%2]
+				if g.cfg.NoCaller {
+					kind = "timestamp"
+				}
+				nSibCtx++
+				st.Ops = []Op{{V: Val{T: kind}}}
+			}
 			if forced == "update" && patReset {
 				st.Ops = append([]Op{{V: Val{T: "reset"}}}, st.Ops...)
 			} else if g.cfg.Tree && rapid.IntRange(0, 5).Draw(t, label+".reset") == 0 {
@@ -900,6 +934,9 @@ func (g *G) Steps(label string, maxSteps int) []Step {
 			nh := rapid.IntRange(1, 3).Draw(t, label+".nh")
 			if forced != "" {
 				nh = 1
+			}
+			if ctxHookNh > 0 {
+				nh, ctxHookNh = ctxHookNh, 0
 			}
 			for j := 0; j < nh; j++ {
 				hid++
